@@ -1,12 +1,15 @@
 package main
 
 import (
+	"bufio"
 	"bytes"
 	"encoding/binary"
 	"fmt"
+	"io"
 	"math"
 	"strconv"
 	"strings"
+	"testing/iotest"
 
 	"github.com/Tnze/go-mc/level"
 )
@@ -112,13 +115,17 @@ func (h *c11Hist) apply(op string) {
 			}
 			h.lastWT = append([]byte(nil), buf.Bytes()...)
 		case "rf":
-			in := unhx(f[1])
-			r := bytes.NewReader(in)
+			// rf:<hex> (source kind br) or rf:<kind>:<hex>
+			kind, in := "br", unhx(f[len(f)-1])
+			if len(f) == 3 {
+				kind = f[1]
+			}
+			r, left := c11Source(kind, in)
 			n, err := h.st.ReadFrom(r)
 			if err != nil {
-				o = fmt.Sprintf("err:%d", r.Len())
+				o = fmt.Sprintf("err:%d", left())
 			} else {
-				o = fmt.Sprintf("ok:%d:%d", n, r.Len())
+				o = fmt.Sprintf("ok:%d:%d", n, left())
 			}
 		case "fix":
 			if err := h.st.Fix(atoi(f[1])); err != nil {
@@ -232,6 +239,229 @@ func replayC11(c *Ctx, op string, args []string) bool {
 		return false
 	}
 	return true
+}
+
+// ---------- byte sources for ReadFrom ----------
+//
+// Source kinds (printed on the op line, "rf:<kind>:<hex>"):
+//   br       *bytes.Reader                      (io.ByteReader)
+//   bb       *bytes.Buffer                      (io.ByteReader)
+//   bu       *bufio.Reader, default size, over a plain source (io.ByteReader with short reads at 4096)
+//   pl       plain reader: Read only, hands over whatever is asked for (net.Conn, *os.File, decompressor)
+//   p1       plain reader delivering one byte per Read
+//   pc<k>    plain reader with pseudo-random chunk sizes 1..23 derived from k
+//   ds<k>    like pc<k>, the last bytes are delivered together with io.EOF
+//   z<k>     like pc<k>, and some Read calls return (0, nil)
+//   de       iotest.DataErrReader over a plain source
+//   L<N>.<kind>  *io.LimitedReader with limit N over one of the above
+// The second result reports how many bytes of the underlying source the storage has NOT taken: nothing past
+// the wire form may be consumed, whatever the kind.
+
+// c11Src is a reader without hidden buffering; it is not an io.ByteReader.
+type c11Src struct {
+	data     []byte
+	pos      int
+	chunk    func() int // upper bound for the next Read (<= 0: unlimited)
+	withData bool       // deliver the final bytes together with io.EOF
+	zeros    func() bool
+}
+
+func (s *c11Src) Read(p []byte) (int, error) {
+	if len(p) == 0 {
+		return 0, nil
+	}
+	if s.zeros != nil && s.zeros() {
+		return 0, nil
+	}
+	if s.pos >= len(s.data) {
+		return 0, io.EOF
+	}
+	k := len(s.data) - s.pos
+	if s.chunk != nil {
+		if c := s.chunk(); c > 0 && c < k {
+			k = c
+		}
+	}
+	if k > len(p) {
+		k = len(p)
+	}
+	copy(p, s.data[s.pos:s.pos+k])
+	s.pos += k
+	if s.withData && s.pos >= len(s.data) {
+		return k, io.EOF
+	}
+	return k, nil
+}
+
+func (s *c11Src) left() int { return len(s.data) - s.pos }
+
+// c11Counter counts what a wrapped reader hands to its consumer; it hides every method but Read.
+type c11Counter struct {
+	r io.Reader
+	n int
+}
+
+func (c *c11Counter) Read(p []byte) (int, error) {
+	k, err := c.r.Read(p)
+	c.n += k
+	return k, err
+}
+
+func c11Lcg(seed int) func() int {
+	x := uint32(seed)*2654435761 + 12345
+	return func() int {
+		x = x*1664525 + 1013904223
+		return int(x >> 16)
+	}
+}
+
+func c11Source(kind string, in []byte) (io.Reader, func() int) {
+	if strings.HasPrefix(kind, "L") {
+		dot := strings.Index(kind, ".")
+		if dot < 0 {
+			panic("bad source kind " + kind)
+		}
+		lim, err := strconv.ParseInt(kind[1:dot], 10, 64)
+		if err != nil {
+			panic("bad source kind " + kind)
+		}
+		inner, left := c11Source(kind[dot+1:], in)
+		return &io.LimitedReader{R: inner, N: lim}, left
+	}
+	name := strings.TrimRight(kind, "0123456789")
+	seed := 0
+	if kind == "p1" {
+		name = kind
+	}
+	if len(name) < len(kind) {
+		seed, _ = strconv.Atoi(kind[len(name):])
+	}
+	data := append([]byte(nil), in...)
+	switch name {
+	case "br":
+		r := bytes.NewReader(data)
+		return r, r.Len
+	case "bb":
+		b := bytes.NewBuffer(data)
+		return b, b.Len
+	case "bu":
+		src := &c11Src{data: data}
+		r := bufio.NewReader(src)
+		return r, func() int { return r.Buffered() + src.left() }
+	case "pl":
+		src := &c11Src{data: data}
+		return src, src.left
+	case "p1":
+		src := &c11Src{data: data, chunk: func() int { return 1 }}
+		return src, src.left
+	case "pc", "ds", "z":
+		g := c11Lcg(seed)
+		src := &c11Src{data: data, chunk: func() int { return 1 + g()%23 }, withData: name == "ds"}
+		if name == "z" {
+			g2 := c11Lcg(seed + 77)
+			run := 0
+			src.zeros = func() bool { // never more than two empty reads in a row
+				if run < 2 && g2()%3 == 0 {
+					run++
+					return true
+				}
+				run = 0
+				return false
+			}
+		}
+		return src, src.left
+	case "de":
+		cnt := &c11Counter{r: iotest.DataErrReader(&c11Src{data: data})}
+		return cnt, func() int { return len(data) - cnt.n }
+	}
+	panic("unknown source kind " + kind)
+}
+
+// c11Kind draws a source kind for an input of total bytes whose wire form (prefix + longs) is want bytes long.
+func (c *Ctx) c11Kind(total, want int) string {
+	base := []string{"br", "bb", "bu", "pl", "p1", "pc", "ds", "z", "de", "pl", "pc", "bu"}[c.R.Intn(12)]
+	if base == "pc" || base == "ds" || base == "z" {
+		base += strconv.Itoa(c.R.Intn(1000))
+	}
+	if c.R.Intn(4) == 0 {
+		lim := []int{want, total, want + 1, want - 1, want - 8, total + 5, 1 << 40}[c.R.Intn(7)]
+		if lim < 0 {
+			lim = 0
+		}
+		return fmt.Sprintf("L%d.%s", lim, base)
+	}
+	return base
+}
+
+// c11RF is the op "ReadFrom(in)" through a randomly drawn source kind.
+func (c *Ctx) c11RF(in []byte, want int) string {
+	return "rf:" + c.c11Kind(len(in), want) + ":" + hx(in)
+}
+
+// c11WireLen is the length of the wire form at the head of in (prefix + 8*count) when the count is
+// a non-negative VarInt, else len(in).
+func c11WireLen(in []byte) int {
+	var v uint32
+	k := 0
+	for k < len(in) && k < 5 {
+		v |= uint32(in[k]&0x7f) << uint(7*k)
+		k++
+		if in[k-1]&0x80 == 0 {
+			if int32(v) >= 0 {
+				return k + 8*int(v)
+			}
+			break
+		}
+	}
+	return len(in)
+}
+
+// c11AllKinds lists every source kind once (seeded kinds with the given seed), plain and under a LimitedReader
+// cut exactly at the end of the wire form.
+func c11AllKinds(seed, want int) []string {
+	base := []string{"br", "bb", "bu", "pl", "p1", fmt.Sprintf("pc%d", seed), fmt.Sprintf("ds%d", seed), fmt.Sprintf("z%d", seed), "de"}
+	out := append([]string{}, base...)
+	for _, b := range base {
+		out = append(out, fmt.Sprintf("L%d.%s", want, b))
+	}
+	return out
+}
+
+// the wire form of exactly k longs (non-periodic contents) read into a storage of another width through
+// every source kind, followed by bytes that must stay unread
+func (c *Ctx) c11WireSizes(k int, kinds []string) {
+	for _, kind := range kinds {
+		b := 1 + c.R.Intn(32)
+		if k > 100 { // keep n = k*vpl moderate: the oracle decodes every value
+			b = 8 + c.R.Intn(25)
+		}
+		vpl := 64 / b
+		n := k * vpl
+		if k > 0 {
+			n -= c.R.Intn(vpl)
+		}
+		src := c.c11RandLongs(k, b, c.R.Intn(2))
+		in := append(c11Wire(src, nil), c.c11Bytes(c.R.Intn(24))...)
+		b2 := 1 + c.R.Intn(32)
+		var h *c11Hist
+		switch c.R.Intn(3) {
+		case 0:
+			h = c11New(b, n, nil, true) // same capacity: the array is re-sliced
+		case 1:
+			h = c11New(b2, n, c.c11RandLongs(c11RefSize(b2, n), b2, 0), false)
+		default:
+			h = c11New(b2, n, nil, true)
+		}
+		h.apply("rf:" + kind + ":" + hx(in))
+		h.apply("raw")
+		h.apply(fmt.Sprintf("fix:%d", b))
+		if n > 0 {
+			h.apply(fmt.Sprintf("get:%d", c.R.Intn(n)))
+			h.apply(fmt.Sprintf("get:%d", n-1))
+		}
+		h.apply("wt") // the count prefix written back at the same sizes
+		h.emit(c)
+	}
 }
 
 // ---------- generators ----------
@@ -397,7 +627,7 @@ func (c *Ctx) c11RandomOp(h *c11Hist, b, n int) {
 			h.apply("wt")
 			if !h.dead {
 				in := append(append([]byte(nil), h.lastWT...), c.c11Bytes(c.R.Intn(4))...)
-				h.apply("rf:" + hx(in))
+				h.apply(c.c11RF(in, len(h.lastWT)))
 				h.apply(fmt.Sprintf("fix:%d", b))
 			}
 		}
@@ -492,7 +722,7 @@ func (c *Ctx) c11WireHistory(b, n int) {
 		in = c11Wire(src, &cnt)
 	case 2: // wrong width given to Fix afterwards (handled below)
 	}
-	h.apply("rf:" + hx(in))
+	h.apply(c.c11RF(in, c11WireLen(in)))
 	fb := b
 	if mut == 2 {
 		fb = c.R.Intn(34)
@@ -703,13 +933,14 @@ func genC11(c *Ctx) {
 			in = append([]byte{0x80 | byte(c.R.Intn(128)), 0x80, 0x80, 0x80, byte(c.R.Intn(256))}, c.c11Bytes(c.R.Intn(20))...)
 		}
 		in = c11CapCount(in)
-		h.apply("rf:" + hx(in))
+		h.apply(c.c11RF(in, c11WireLen(in)))
 		h.apply(fmt.Sprintf("fix:%d", b))
 		if len(h.st.Raw()) <= 600 {
 			h.apply("raw")
 		}
 		if c.R.Intn(2) == 0 {
-			h.apply("rf:" + hx(c11Wire(c.c11RandLongs(c11RefSize(b, n), b, 0), nil)))
+			w2 := c11Wire(c.c11RandLongs(c11RefSize(b, n), b, 0), nil)
+			h.apply(c.c11RF(w2, len(w2)))
 			h.apply(fmt.Sprintf("fix:%d", b))
 			h.apply("get:0")
 			h.apply("raw")
@@ -719,19 +950,45 @@ func genC11(c *Ctx) {
 	for _, bn := range [][2]int{{5, 30}, {1, 65}, {32, 3}, {0, 7}} {
 		b, n := bn[0], bn[1]
 		wire := c11Wire(c.c11RandLongs(c11RefSize(b, n), b, 0), nil)
+		kinds := c11AllKinds(c.R.Intn(1000), len(wire))
 		for cut := 0; cut <= len(wire); cut++ {
-			h := c11New(b, n, c.c11RandLongs(c11RefSize(b, n), b, 2), false)
-			h.apply("rf:" + hx(wire[:cut]))
-			h.apply("raw")
-			h.apply(fmt.Sprintf("fix:%d", b))
-			h.apply("get:0")
-			h.emit(c)
+			for j, kind := range []string{"br", kinds[cut%len(kinds)], fmt.Sprintf("L%d.%s", cut, kinds[(cut/3)%9])} {
+				h := c11New(b, n, c.c11RandLongs(c11RefSize(b, n), b, 2), false)
+				if j < 2 {
+					h.apply("rf:" + kind + ":" + hx(wire[:cut]))
+				} else { // the limit, not the source, ends the input
+					h.apply("rf:" + kind + ":" + hx(wire))
+				}
+				h.apply("raw")
+				h.apply(fmt.Sprintf("fix:%d", b))
+				h.apply("get:0")
+				h.emit(c)
+			}
+		}
+	}
+	// every source kind x the sizes where a buffering or chunking slip would show: 127..129 longs (two-byte
+	// VarInt count from 128), 511..513 (a default bufio.Reader holds 4096 bytes = 512 longs), 1023..1025
+	for _, k := range []int{0, 1, 2, 3, 15, 16, 17, 127, 128, 129, 511, 512, 513, 1023, 1024, 1025} {
+		want := len(leb(uint64(k))) + 8*k
+		kinds := c11AllKinds(c.R.Intn(1000), want)
+		if !c.Thorough() && k >= 127 {
+			// quick: every kind at every boundary region, rotating over the three sizes of the region
+			var sel []string
+			for j, kd := range kinds {
+				if j%3 == k%3 || kd == "pl" || kd == "bu" {
+					sel = append(sel, kd)
+				}
+			}
+			kinds = sel
+		}
+		for rep := 0; rep < c.N(1, 6); rep++ {
+			c.c11WireSizes(k, kinds)
 		}
 	}
 	// a large declared count with little data behind it (no huge allocation: capped at 2^16 longs)
 	for _, cnt := range []int32{1 << 10, 1 << 14, 1 << 16} {
 		h := c11New(4, 16, nil, true)
-		h.apply("rf:" + hx(append(leb(uint64(cnt)), c.c11Bytes(17)...)))
+		h.apply(c.c11RF(append(leb(uint64(cnt)), c.c11Bytes(17)...), 0))
 		h.apply("len")
 		h.apply("fix:4")
 		h.emit(c)
